@@ -19,7 +19,7 @@ CHUNK = 50
 PROBES = ['same_object_abandoned_in_logs', 'tag_straddles_buffer_boundary', 'large_capture', 'special_record', 'partial_tag_prefix_before_tag', 'earlier_dump_other_parser_object', 'multi_chunk', 'empty_chunk', 'cut_inside_window', 'cut_inside_lookup', 'decoy_tag_in_stackshot', 'gap_before_event_tag',
           'header_plist_unaligned', 'two_kext_blocks', 'two_dyld_blocks', 'two_code_blocks', 'two_log_blocks', 'unpadded_last_block',
           'log_extends_tables', 'log_without_pid', 'strings_block_before_logs', 'xml_plists', 'no_blocks', 'unknown_block',
-          'log_with_tai', 'cli_run', 'same_object_read_an_earlier_dump_to_its_end', 'code_block_cut_mid_line', 'block_padding_not_zero', 'same_record_on_both_sides_of_chunk_boundary', 'two_listings_of_one_object_under_way', 'two_listings_read_in_turns', 'log_blocks_share_stored_objects', 'log_argument_not_available', 'log_message_several_segments']
+          'log_with_tai', 'cli_run', 'same_object_read_an_earlier_dump_to_its_end', 'code_block_cut_mid_line', 'block_padding_not_zero', 'stream_positioned_behind_a_prefix', 'same_record_on_both_sides_of_chunk_boundary', 'two_listings_of_one_object_under_way', 'two_listings_read_in_turns', 'log_blocks_share_stored_objects', 'log_argument_not_available', 'log_message_several_segments']
 RULE = ('one run = one simulated v3 dump (1..3 SimKernel threads, 0..60 records in 1..5 chunks, thread map with duplicate keys, '
         'seeded metadata/log blocks) parsed by the real KdBufParser and by PyKdebugParser.kevents/os_log_events; non-trivial = '
         '>= 2 event chunks or >= 2 blocks of one list-valued kind or >= 1 log that extends the tables; distinct = distinct '
@@ -75,6 +75,10 @@ def generate(rng, index, tier):
     scn['api'] = rng.pick(['kd', 'kd', 'pk'])
     if w['chunks'] and rng.chance(0.15):
         scn['same_record_across_boundary'] = rng.randint(1, 3)
+    if rng.chance(0.1):
+        scn['prefix'] = rng.randint(1, 15)
+        if rng.chance(0.5):
+            w['filler1'] = ''          # (no stackshot at all: the end marker follows the header padding directly)
     if rng.chance(0.25):
         # records a kernel buffer can hold besides decoded ones: all-zero slots, all-ones, zero timestamp and debugid
         scn['special'] = [[rng.randrange(0, nrec + 1), rng.pick(['zero', 'zero', 'ones', 'zts', 'magic', 'magic'])] for _ in range(rng.randint(1, 3))]
@@ -315,7 +319,14 @@ def execute(scn):
             except Exception as e:
                 exc = e
         else:
-            items, exc = common.drain(lambda: kd.parse(SimReader(data)))
+            if scn.get('prefix'):
+                # the dump sits behind a prefix in the stream, which is handed over positioned at the dump's first byte
+                bump('probe:stream_positioned_behind_a_prefix')
+                rd_ = SimReader(bytes(range(1, 1 + scn['prefix'])) + data)
+                rd_.seek(scn['prefix'])
+                items, exc = common.drain(lambda: kd.parse(rd_))
+            else:
+                items, exc = common.drain(lambda: kd.parse(SimReader(data)))
     has_tai = any('tai' in ev for b in blocks if b['kind'] == 'logs' for ev in b['payload']['Events'])
     if has_tai:
         bump('probe:log_with_tai')
